@@ -56,8 +56,7 @@ func (f *MemFile) Chdir() error {
 	}
 
 	// the current directory is always an absolute path.
-	absPath, _ := f.vfs.Abs(f.name)
-	_ = f.vfs.SetCurDir(absPath)
+	_ = f.vfs.SetCurDir(f.absPath)
 
 	return nil
 }
